@@ -13,10 +13,3 @@ impl<T> RwLock<T> {
     { unimplemented!() }
 }
 
-impl<N> Dag<N, Edge, FnIdInner> {
-    /// `Dag::node_weights_mut()`: one `&mut` per node weight, in index order
-    #[verifier::external_body]
-    pub fn node_weights_mut(&mut self) -> (r: VxIter<&mut N>)
-        ensures r.rest().len() == old(self).n(), final(self).n() == old(self).n(), final(self).edges() == old(self).edges(),
-    { unimplemented!() }
-}
